@@ -462,9 +462,9 @@ class IterativeIASolverBaseClass(IASolverBaseClass):
     def randomizeF(self,
                    Ns: Union[int, List[int], Sequence[int]],
                    P: Optional[np.ndarray] = None) -> None:
-        self._runned_iterations = 0
         # randomizeF in the base class will set `self._P` to `P`
         super().randomizeF(Ns, P)
+        self._runned_iterations = 0
 
     randomizeF.__doc__ = IASolverBaseClass.randomizeF.__doc__
 
